@@ -87,6 +87,29 @@ pub fn gen(rng: &mut Rng, count: usize, thorough: bool, out: &mut Vec<String>, p
             out.push(format!("xor fam=4 ip={} port={} tid={:024x} tid2={:024x}", hex(&ip), 1u32 << (i % 16), (1u128 << (i * 3)), mask));
         }
     }
+    // special IPv6 forms: IPv4-mapped / IPv4-compatible / 6to4 / loopback / multicast, and addresses
+    // whose XORed wire form takes one of those forms (ip = special xor (cookie || tid))
+    let specials: [u128; 8] = [
+        0x0000_0000_0000_0000_0000_ffff_c000_0201,
+        0x0000_0000_0000_0000_0000_ffff_0000_0000,
+        0x0000_0000_0000_0000_0000_ffff_ffff_ffff,
+        0x0000_0000_0000_0000_0000_0000_c000_0201,
+        0x0064_ff9b_0000_0000_0000_0000_c000_0201,
+        0x2002_c000_0201_0000_0000_0000_0000_0001,
+        0x0000_0000_0000_0000_0000_0000_0000_0001,
+        0xff02_0000_0000_0000_0000_0000_0000_0001,
+    ];
+    for i in 0..(if thorough { 4096 } else { 256 }) {
+        if (i as u64) % parts != part {
+            continue;
+        }
+        let (t, t2) = tids(rng);
+        let sp = specials[i % specials.len()] ^ if i >= 64 { (rng.u128() & 0xffff_ffff) } else { 0 };
+        let key = (0x2112_A442u128 << 96) | t;
+        let ip = if i % 2 == 0 { sp } else { sp ^ key };
+        let port = if i % 3 == 0 { 0x2112 } else { rng.below(65536) as u32 };
+        out.push(format!("xor fam=6 ip={} port={} tid={:024x} tid2={:024x}", hex(&ip.to_be_bytes()), port, t, t2));
+    }
     for _ in 0..count {
         let f = rand_addr_fields(rng).replace(',', " ");
         let (t, t2) = tids(rng);
